@@ -572,6 +572,16 @@ func (e *Engine) modularCallSig(st *State, sig *types.Signature, name string, ct
 		args[i] = a
 		env[names[i]] = specBind{a, typs[i]}
 	}
+	// positional aliases arg0, arg1, ... (receiver excluded) so that interface contracts do not depend on parameter names
+	{
+		off := len(names) - sig.Params().Len()
+		for i := 0; i < sig.Params().Len(); i++ {
+			env[fmt.Sprintf("arg%d", i)] = env[names[off+i]]
+		}
+		if off == 1 {
+			env["recv"] = env[names[0]]
+		}
+	}
 	pre := &specCtx{e: e, st: st, heap: st.Heap, oldHeap: st.Heap, oldAlloc: st.Alloc, env: env, pkg: e.specPkg(ct)}
 	for i, rq := range ct.Requires {
 		g := e.evalClause(pre, rq)
